@@ -16,6 +16,7 @@
 #include <cppcms/thread_pool.h>
 #include <sys/socket.h>
 #include <poll.h>
+#include <netinet/in.h>
 #include <fcntl.h>
 #include <sys/resource.h>
 #include <atomic>
@@ -179,26 +180,28 @@ static void fd_reuse_case(int reactor,const char *rname,int ev1,int how,int ev2,
 // shutdown(SHUT_WR), shutdown(SHUT_RD), sends one byte, does nothing}. After a few loop iterations the kernel is asked (poll(2) on our end) what it reports: when it
 // reports hang-up/error the epoll and poll reactors deliver an error event, the loop deregisters the descriptor, and EVERY armed handler must have run by then
 // (for any reactor: the handler of a direction that poll reports ready must have run). Then cancel_io_events sweeps: every handler exactly once overall.
-static void peer_ending_case(int reactor,const char *rname,int armed,int full,int inbound,int action){ const char *an[]={"close","shutdown(SHUT_RDWR)","shutdown(SHUT_WR)","shutdown(SHUT_RD)","send one byte","nothing"};
-	std::string cs="S10 peer ending reactor="+std::string(rname)+" armed="+(armed==1?"reader":armed==2?"writer":"reader+writer")+" send buffer="+(full?"full":"empty")+" inbound="+std::to_string(inbound)+" peer: "+an[action]; vf::announce(cs); vf::eval();
-	io::io_service srv(reactor); int sp[2]; if(socketpair(AF_UNIX,SOCK_STREAM,0,sp)){ vf::guard("failing_registration_cases_skipped"); return; } fcntl(sp[0],F_SETFL,fcntl(sp[0],F_GETFL)|O_NONBLOCK); fcntl(sp[1],F_SETFL,fcntl(sp[1],F_GETFL)|O_NONBLOCK);
+static bool tcp_pair(int sp[2]){ int l=socket(AF_INET,SOCK_STREAM,0); if(l<0) return false; struct sockaddr_in a; memset(&a,0,sizeof(a)); a.sin_family=AF_INET; a.sin_addr.s_addr=htonl(INADDR_LOOPBACK); a.sin_port=0; socklen_t al=sizeof(a);
+	if(bind(l,(struct sockaddr*)&a,sizeof(a))||listen(l,1)||getsockname(l,(struct sockaddr*)&a,&al)){ ::close(l); return false; } int c=socket(AF_INET,SOCK_STREAM,0); if(c<0||connect(c,(struct sockaddr*)&a,sizeof(a))){ if(c>=0) ::close(c); ::close(l); return false; } int s=accept(l,0,0); ::close(l); if(s<0){ ::close(c); return false; } sp[0]=c; sp[1]=s; return true; }
+static void peer_ending_case(int reactor,const char *rname,int armed,int full,int inbound,int action,int tcp){ const char *an[]={"close","shutdown(SHUT_RDWR)","shutdown(SHUT_WR)","shutdown(SHUT_RD)","send one byte","nothing"};
+	std::string cs="S10 peer ending "+std::string(tcp?"tcp loopback":"unix stream")+" reactor="+std::string(rname)+" armed="+(armed==1?"reader":armed==2?"writer":"reader+writer")+" send buffer="+(full?"full":"empty")+" inbound="+std::to_string(inbound)+" peer: "+an[action]; vf::announce(cs); vf::eval();
+	io::io_service srv(reactor); int sp[2]; if(tcp? !tcp_pair(sp) : socketpair(AF_UNIX,SOCK_STREAM,0,sp)!=0){ vf::guard("peer_ending_cases_skipped"); return; } fcntl(sp[0],F_SETFL,fcntl(sp[0],F_GETFL)|O_NONBLOCK); fcntl(sp[1],F_SETFL,fcntl(sp[1],F_GETFL)|O_NONBLOCK);
 	if(full){ char blk[4096]; memset(blk,'f',sizeof(blk)); while(write(sp[0],blk,sizeof(blk))>0){} } if(inbound){ if(write(sp[1],"i",1)!=1){} }
 	int rc=0,wc=0,rc_before=0,wc_before=0; short rev=0; std::string codes; auto code=[](error_code const &e){ return !e?std::string("ok"): e==error_code(io::aio_error::canceled,io::aio_error_cat)?std::string("canceled"):std::string("error"); };
 	std::vector<std::function<void()> > script;
 	script.push_back([&](){ if(armed&1) srv.set_io_event(sp[0],io::io_service::in,[&](error_code const &e){ rc++; codes+="r:"+code(e)+","; }); if(armed&2) srv.set_io_event(sp[0],io::io_service::out,[&](error_code const &e){ wc++; codes+="w:"+code(e)+","; }); });
 	script.push_back([&](){ switch(action){ case 0: ::close(sp[1]); sp[1]=-1; break; case 1: shutdown(sp[1],SHUT_RDWR); break; case 2: shutdown(sp[1],SHUT_WR); break; case 3: shutdown(sp[1],SHUT_RD); break; case 4: if(write(sp[1],"p",1)!=1){} break; default: break; } });
 	script.push_back([&](){}); // a few more loop iterations
-	script.push_back([&](){ rc_before=rc; wc_before=wc; struct pollfd pf; pf.fd=sp[0]; pf.events=POLLIN|POLLOUT; pf.revents=0; if(::poll(&pf,1,0)>=0) rev=pf.revents; });
+	script.push_back([&](){ struct pollfd pf; pf.fd=sp[0]; pf.events=POLLIN|POLLOUT; pf.revents=0; if(::poll(&pf,1,0)>=0) rev=pf.revents; }); /* what the kernel reports now ... */ script.push_back([&](){ rc_before=rc; wc_before=wc; }); /* ... the loop has had four more iterations to deliver */
 	script.push_back([&](){ srv.cancel_io_events(sp[0]); });
 	size_t pc=0; int hop=0; std::function<void()> tick; tick=[&](){ if(hop>0){ hop--; srv.post(tick); return; } if(pc<script.size()){ script[pc++](); hop=4; srv.post(tick); } else srv.stop(); }; srv.post(tick); srv.run();
 	std::string fail; bool hup=(rev&(POLLHUP|POLLERR))!=0 && reactor!=io::reactor::use_select; std::string kr=std::string(rev&POLLIN?"IN ":"")+(rev&POLLOUT?"OUT ":"")+(rev&POLLHUP?"HUP ":"")+(rev&POLLERR?"ERR ":"");
 	if((armed&1)&&rc_before==0&&(hup||(rev&POLLIN))) fail="the readability handler had not run although the kernel reports "+kr+"on the descriptor";
 	if(fail.empty()&&(armed&2)&&wc_before==0&&(hup||(rev&POLLOUT))) fail="the writability handler had not run although the kernel reports "+kr+"on the descriptor (hang-up/error deregisters the descriptor: every armed handler has to be completed)";
 	if(fail.empty()&&(((armed&1)&&rc!=1)||(!(armed&1)&&rc))) fail="the readability handler ran "+std::to_string(rc)+" times ("+codes+")"; if(fail.empty()&&(((armed&2)&&wc!=1)||(!(armed&2)&&wc))) fail="the writability handler ran "+std::to_string(wc)+" times ("+codes+")";
-	if(!fail.empty()) vf::violation(std::string("io-wait:peer-ending:")+rname,fail+" ["+cs+"]","\"case\":"+vf::jstr(cs)); vf::guard("peer_ending_cases"); if(hup) vf::guard("peer_ending_cases_with_hangup_reported"); if(hup&&(armed&2)&&full&&!(rev&POLLOUT)) vf::guard("peer_ending_hangup_with_unready_writer"); vf::C().traces++; vf::outcome("S10|"+std::string(rname)+"|"+std::to_string(armed)+std::to_string(full)+std::to_string(inbound)+std::to_string(action)+"|"+kr+"|"+codes);
+	if(!fail.empty()) vf::violation(std::string("io-wait:peer-ending:")+rname,fail+" ["+cs+"]","\"case\":"+vf::jstr(cs)); vf::guard("peer_ending_cases"); if(hup) vf::guard("peer_ending_cases_with_hangup_reported"); if(hup&&(armed&2)&&full&&!(rev&POLLOUT)) vf::guard("peer_ending_hangup_with_unready_writer"); if(tcp&&(rev&POLLERR)) vf::guard("peer_ending_tcp_reset_cases"); vf::C().traces++; vf::outcome("S10|"+std::string(rname)+(tcp?"|tcp|":"|unix|")+std::to_string(armed)+std::to_string(full)+std::to_string(inbound)+std::to_string(action)+"|"+kr+"|"+codes);
 	{ static uint64_t sc=0; if(vf::sample_tick(sc,11)) vf::sample("{\"case\":"+vf::jstr(cs)+",\"kernel\":"+vf::jstr(kr)+",\"handlers\":"+vf::jstr(codes)+"}",90); }
 	::close(sp[0]); if(sp[1]>=0) ::close(sp[1]); }
-static void peer_ending_pass(){ int reactors[]={io::reactor::use_epoll,io::reactor::use_poll,io::reactor::use_select}; const char *rn[]={"epoll","poll","select"}; for(int r=0;r<3;r++) for(int armed=1;armed<=3;armed++) for(int full=0;full<2;full++) for(int inb=0;inb<2;inb++) for(int act=0;act<6;act++) peer_ending_case(reactors[r],rn[r],armed,full,inb,act); }
+static void peer_ending_pass(){ int reactors[]={io::reactor::use_epoll,io::reactor::use_poll,io::reactor::use_select}; const char *rn[]={"epoll","poll","select"}; for(int r=0;r<3;r++) for(int armed=1;armed<=3;armed++) for(int full=0;full<2;full++) for(int inb=0;inb<2;inb++) for(int act=0;act<6;act++) for(int tcp=0;tcp<2;tcp++) peer_ending_case(reactors[r],rn[r],armed,full,inb,act,tcp); }
 static void failing_registration_pass(){ { int reactors[]={io::reactor::use_epoll,io::reactor::use_poll,io::reactor::use_select}; const char *rn[]={"epoll","poll","select"}; for(int r=0;r<3;r++) for(int e1=0;e1<2;e1++) for(int how=0;how<3;how++) for(int e2=0;e2<2;e2++) for(int rounds=1;rounds<=2;rounds++) fd_reuse_case(reactors[r],rn[r],e1,how,e2,rounds); }
  { int reactors[]={io::reactor::use_epoll,io::reactor::use_poll,io::reactor::use_select}; const char *rn[]={"epoll","poll","select"}; for(int r=0;r<3;r++) for(int phase=0;phase<2;phase++) for(int rd=0;rd<2;rd++) for(int how=0;how<3;how++) cancel_before_run_case(reactors[r],rn[r],phase,rd,how); }
  int reactors[]={io::reactor::use_epoll,io::reactor::use_poll,io::reactor::use_select}; const char *rn[]={"epoll","poll","select"}; for(int r=0;r<3;r++) for(int kind=0;kind<4;kind++) for(int follow=0;follow<4;follow++) failing_registration_case(reactors[r],rn[r],kind,follow); }
@@ -219,7 +222,7 @@ int main(int argc,char **argv){ vf::init(argc,argv,"C17","model_checking");
 	tsan_pass(); return vf::finish();
 #else
 	bool th=vf::thorough(); int bound=th?3:2; std::vector<Scenario> S=scenarios(); int reactors[]={io::reactor::use_epoll,io::reactor::use_poll,io::reactor::use_select}; const char *rn[]={"epoll","poll","select"};
-	vf::C().rule="S10 (sequential): the peer of a unix stream socket {closes, shutdown RDWR/WR/RD, sends a byte, does nothing} while {reader, writer, both} are armed on our end with send buffer {empty, full} and {0,1} inbound bytes, for each reactor: when poll(2) reports hang-up/error every armed handler has run (epoll, poll), a direction poll(2) reports ready has run, every handler exactly once after the final cancel. S9 (sequential): descriptor number reuse - a pending wait on descriptor N, N goes away {cancel then close, raw close then cancel, raw close + a new socket takes N + cancel}, then a new ready socket with number N is waited on (readable/writable, 1 or 2 rounds) for each reactor: old handler exactly once, new handler exactly once with success. S8 (sequential): a wait armed and cancelled (cancel_io_events / stream_socket::cancel / close) while the loop is not running (before the first run(), after stop()+reset()) x readable/idle descriptor x 3 reactors: handler exactly once with a cancellation or error code, never success. S7 (sequential): I/O waits whose registration the reactor refuses (regular file, closed descriptor, descriptor >= FD_SETSIZE; plus a valid socket) x 3 reactors x {cancel, cancel twice, second wait then cancel, nothing}: each handler exactly once. S6 (sequential): N in {1,2,10,500,999,1000,1001,1500,2500; thorough +5000,12000,20000} simultaneously pending timers x 6 (16) shifts of the slot generator x 5 cancel/expire orders: ids pairwise distinct among pending timers, every handler exactly once with the right code. Scenarios S1 (two producers posting plain/event/io/nested handlers), S2 (timers armed with equal, past and future deadlines and cancelled from another thread, cancel racing expiry, double cancel), S3 (two descriptors becoming readable/writable, writer thread, canceller), S4 (stop racing post) x reactors {epoll, poll, select}, and S5 (thread_pool(2): five jobs, one throwing, one cancelled, stop) - every schedule with <= "+std::to_string(bound)+" preemptions ("+std::to_string(bound-1)+" for S2 and S3); scheduling points: every pthread mutex / condition operation, poll/epoll_wait/select, explicit yields around descriptor writes; virtual clock. states = distinct handler-outcome vectors, transitions = scheduling decisions, traces = executions of the real code";
+	vf::C().rule="S10 (sequential): the peer of a {unix stream, TCP loopback} socket {closes, shutdown RDWR/WR/RD, sends a byte, does nothing} while {reader, writer, both} are armed on our end with send buffer {empty, full} and {0,1} inbound bytes, for each reactor: when poll(2) reports hang-up/error every armed handler has run (epoll, poll), a direction poll(2) reports ready has run, every handler exactly once after the final cancel. S9 (sequential): descriptor number reuse - a pending wait on descriptor N, N goes away {cancel then close, raw close then cancel, raw close + a new socket takes N + cancel}, then a new ready socket with number N is waited on (readable/writable, 1 or 2 rounds) for each reactor: old handler exactly once, new handler exactly once with success. S8 (sequential): a wait armed and cancelled (cancel_io_events / stream_socket::cancel / close) while the loop is not running (before the first run(), after stop()+reset()) x readable/idle descriptor x 3 reactors: handler exactly once with a cancellation or error code, never success. S7 (sequential): I/O waits whose registration the reactor refuses (regular file, closed descriptor, descriptor >= FD_SETSIZE; plus a valid socket) x 3 reactors x {cancel, cancel twice, second wait then cancel, nothing}: each handler exactly once. S6 (sequential): N in {1,2,10,500,999,1000,1001,1500,2500; thorough +5000,12000,20000} simultaneously pending timers x 6 (16) shifts of the slot generator x 5 cancel/expire orders: ids pairwise distinct among pending timers, every handler exactly once with the right code. Scenarios S1 (two producers posting plain/event/io/nested handlers), S2 (timers armed with equal, past and future deadlines and cancelled from another thread, cancel racing expiry, double cancel), S3 (two descriptors becoming readable/writable, writer thread, canceller), S4 (stop racing post) x reactors {epoll, poll, select}, and S5 (thread_pool(2): five jobs, one throwing, one cancelled, stop) - every schedule with <= "+std::to_string(bound)+" preemptions ("+std::to_string(bound-1)+" for S2 and S3); scheduling points: every pthread mutex / condition operation, poll/epoll_wait/select, explicit yields around descriptor writes; virtual clock. states = distinct handler-outcome vectors, transitions = scheduling decisions, traces = executions of the real code";
 	vf::assume("a loop that sleeps until its one-hour poll timeout while handlers are pending is reported as a lost wake-up (the virtual clock would have to jump past every deadline the scenario armed)"); vf::assume("timers are armed on the millisecond grid; the virtual clock only takes values on that grid"); vf::assume("the data-race clause is decided by ThreadSanitizer on free-running executions of the same scenarios");
 	if(!vf::C().replay_file.empty()) printf("replay: the replay file names scenario, reactor and schedule (choice vector); re-running the quick tier reproduces it\n");
 	std::vector<std::pair<int,int> > jobs; for(size_t si=0;si<S.size();si++) for(int r=0;r<3;r++) jobs.push_back(std::make_pair(si,r)); jobs.push_back(std::make_pair(-1,0)); for(int k=0;k<3;k++) jobs.push_back(std::make_pair(-2,k));
